@@ -57,6 +57,8 @@ def run_scenario(script, args=(), timeout=150):
     env['PYTHONPATH'] = os.path.dirname(REPO_SRC)
     env.pop('MPSERVICE_VERIF', None)
     path = os.path.join(HERE, script)
+    if not os.path.exists(path):
+        raise FileNotFoundError(path)
     try:
         p = subprocess.run([VENV_PY, path, *map(str, args)], capture_output=True, text=True, timeout=timeout, env=env, cwd='/')
         out = (p.stdout[-1500:] + '\n' + p.stderr[-2500:]).strip()
@@ -233,7 +235,7 @@ def run_property(pid, tier, seed):
     # ---- dynamic fallback (DESIGN 2.5): undecided units -> run the scenarios on the real code; a failing run is a violation
     battery = []
     dyn_viol = []
-    if (undecided and not violations) or tier == 'thorough':
+    if (undecided and not violations) or tier == 'thorough' or getattr(mod, 'ALWAYS_RUN_SCENARIOS', False):
         for key, script, *rest in getattr(mod, 'SCENARIOS', ()):
             sc_failed, out, cmd = run_scenario(script, rest[0] if rest else ())
             if sc_failed:      # re-run once: a scenario must fail twice to count (guards against a loaded machine)
